@@ -30,13 +30,13 @@ theorem expired_scale (c : Nat) (hc : 0 < c) (ttl : Option Nat) (now : Nat) (e :
 theorem storeGet_expired {cfg : Cfg} {now tick k : Nat} {items : List Entry} {e : Entry}
     (hf : find items k = some e) (hx : expired cfg.ttl now e = true) :
     storeGet cfg now tick items k = (rm k items, none) := by
-  simp [storeGet, hf, hx]
+  simp [storeGet_eq, storeGetC, hf, hx]
 
 /-- lookup of a stored key whose entry has not expired: a hit with the entry's value -/
 theorem storeGet_fresh {cfg : Cfg} {now tick k : Nat} {items : List Entry} {e : Entry}
     (hf : find items k = some e) (hx : expired cfg.ttl now e = false) :
     (storeGet cfg now tick items k).2 = some e.val := by
-  simp [storeGet, hf, hx]
+  simp [storeGet_eq, storeGetC, hf, hx]
 
 /-- a stored key, a TTL of `d` ticks: hit ⇔ the entry's age is at most `d` ticks -/
 theorem storeGet_hit_iff {cfg : Cfg} {now tick k d : Nat} {items : List Entry} {e : Entry}
